@@ -154,6 +154,7 @@ type tcase struct {
 	Rwl    []string  `json:"rwl,omitempty"`
 	Rdl    []string  `json:"rdl,omitempty"`
 	Ok     bool      `json:"ok,omitempty"`
+	Sfree  bool      `json:"sfree,omitempty"` // refused by the code for a reason the check does not judge (see SetupFree in the spec)
 	Exp    []outcome `json:"exp,omitempty"`
 }
 
@@ -621,6 +622,10 @@ func (c *checker) confirm(ids string, lines []string, ok bool, q reqJ, e outcome
 
 func (c *checker) checkSite(tc *tcase, rnd *rand.Rand, selftest bool) {
 	ids := siteIDs(tc)
+	if tc.Sfree {
+		c.stat("setup_unjudged")
+		return
+	}
 	lines := c.lines(tc, rnd)
 	idx := make([]int, len(c.battery))
 	for k := range idx {
@@ -803,7 +808,7 @@ func (c *checker) checkConds(conds []condRow, rnd *rand.Rand, selftest bool) {
 
 func TestCx09Rewrite(t *testing.T) {
 	hx.Quiet()
-	res := hx.NewResult("TestCx09Rewrite", "one case = one site (<= MaxRules rewrite / redir lines of the pools of RewriteRedir.tla, every site with <= 1 line (thorough: <= 2) and a hash-selected sample of the larger ones) loaded with casket.Start and probed twice with the 56-request battery; verdicts: setup accepts exactly the modelled sites, the URL seen below rewrite/redir or the redirect equals the model's table, original/rewritten placeholders, same answer both times; non-trivial = site with >= 2 lines")
+	res := hx.NewResult("TestCx09Rewrite", "one case = one site (<= MaxRules rewrite / redir lines of the pools of RewriteRedir.tla, every site with <= 1 line (thorough: <= 2) and a hash-selected sample of the larger ones) loaded with casket.Start and probed twice with the 60-request battery; verdicts: setup accepts exactly the modelled sites, the URL seen below rewrite/redir or the redirect equals the model's table, original/rewritten placeholders, same answer both times; non-trivial = site with >= 2 lines")
 	defer res.Write(t)
 
 	// a replay file of another test of this property is not ours
